@@ -712,6 +712,7 @@ func propC16(c *Check) {
 	ruleR16_3(c)
 	ruleR16_4(c)
 	ruleR08_7(c)
+	ruleR08_9(c)
 }
 
 func ruleR20_1(c *Check) {
